@@ -1327,4 +1327,138 @@ theorem wrapTyped_wf (h : Heap) (v : Val) (hwf : WF h) : WF (wrapTyped h v).1 :=
     · exact hwf
     · exact push_wf h _ hwf rfl
 
+/-! ### the invariant is preserved by `Append` whatever the aliasing between its arguments -/
+
+theorem tail_lt {h : Heap} (hwf : WF h) {id : Nat} (hid : id < h.size) : tailOf h (fuelOf h) id < h.size := by
+  obtain ⟨c, hm⟩ := hwf.chain_spec hid
+  exact (hm _ c.tail_mem).2
+
+theorem loop_wf : ∀ (args : List Val) (h : Heap) (root cur : Option Nat) (log : List Nat), WF h →
+    (∀ e, cur = some e → e < h.size) → (∀ id, Val.ref id ∈ args → id < h.size) →
+    WF (appendLoop h root cur log args).1 ∧ h.size ≤ (appendLoop h root cur log args).1.size := by
+  intro args
+  induction args with
+  | nil => intro h root cur log hwf _ _; exact ⟨hwf, Nat.le_refl _⟩
+  | cons a as ih =>
+    intro h root cur log hwf hcur hargs
+    have hargs' : ∀ id, Val.ref id ∈ as → id < h.size := fun id hid => hargs id (by simp [hid])
+    rcases argNode_spec h a hwf (fun id ha => hargs id (by simp [ha])) with ⟨hsk, _⟩ | ⟨h1, n, w, lb, e', hb, B⟩
+    · have hun : appendLoop h root cur log (a :: as) = appendLoop h root cur log as := by
+        simp only [appendLoop, hsk]
+      rw [hun]
+      exact ih h root cur log hwf hcur hargs'
+    · have hgrow := B.grow
+      have hn : h.size ≤ n ∧ n < h1.size := B.fresh n B.chain.head_mem
+      cases cur with
+      | none =>
+        have hun : appendLoop h root none log (a :: as) =
+            appendLoop h1 (some n) (some (tailOf h1 (fuelOf h1) n)) (log ++ w) as := by
+          simp only [appendLoop, hb]
+        rw [hun]
+        have := ih h1 (some n) (some (tailOf h1 (fuelOf h1) n)) (log ++ w) B.wf
+          (fun e he => by cases he; exact tail_lt B.wf hn.2) (fun id hid => by have := hargs' id hid; omega)
+        exact ⟨this.1, by omega⟩
+      | some e =>
+        have he := hcur e rfl
+        have hsz2 : (setNext h1 e n).size = h1.size := setNext_size _ _ _
+        have hwf2 : WF (setNext h1 e n) := WF_setNext h1 e n B.wf (by omega) (by omega) hn.2 B.headNonempty
+        have hun : appendLoop h root (some e) log (a :: as) =
+            appendLoop (setNext h1 e n) root (some (tailOf (setNext h1 e n) (fuelOf (setNext h1 e n)) n))
+              (log ++ w ++ [e]) as := by
+          simp only [appendLoop, hb]
+        rw [hun]
+        have := ih (setNext h1 e n) root (some (tailOf (setNext h1 e n) (fuelOf (setNext h1 e n)) n))
+          (log ++ w ++ [e]) hwf2
+          (fun e' he' => by cases he'; exact tail_lt hwf2 (by rw [hsz2]; exact hn.2))
+          (fun id hid => by have := hargs' id hid; rw [hsz2]; omega)
+        rw [hsz2] at this
+        exact ⟨this.1, by omega⟩
+
+theorem append_wrapper_eq (h : Heap) (v : Val) (args : List Val) (hnil : isNil v = false) (hnr : ∀ id, v ≠ .ref id) :
+    append h v args = appendLoop (h.push (wrapperNode v)) (some h.size) (some h.size) [] args := by
+  cases v with
+  | ref id => exact absurd rfl (hnr id)
+  | nilIface => simp [isNil] at hnil
+  | typedNil => simp [isNil] at hnil
+  | foreignNil => simp [isNil] at hnil
+  | plain u m => simp [append, isNil]
+  | fwrap u m inner => simp [append, isNil]
+
+theorem append_wf_core (h : Heap) (acc : Val) (args : List Val) (hacc : acc ≠ .nilIface) (hwf : WF h)
+    (hids : ∀ id, Val.ref id ∈ acc :: args → id < h.size) :
+    WF (append h acc args).1 ∧ h.size ≤ (append h acc args).1.size := by
+  have hargs : ∀ id, Val.ref id ∈ args → id < h.size := fun id hid => hids id (List.mem_cons_of_mem _ hid)
+  have hnone : ∀ e, (none : Option Nat) = some e → e < h.size := fun e he => by cases he
+  have wrapper : ∀ v : Val, isNil v = false → (∀ id, v ≠ .ref id) →
+      WF (append h v args).1 ∧ h.size ≤ (append h v args).1.size := by
+    intro v hnil hnr
+    rw [append_wrapper_eq h v args hnil hnr]
+    have := loop_wf args (h.push (wrapperNode v)) (some h.size) (some h.size) [] (push_wf h _ hwf rfl)
+      (fun e he => by cases he; rw [Array.size_push]; omega)
+      (fun id hid => by have := hargs id hid; rw [Array.size_push]; omega)
+    have h2 := this.2
+    rw [Array.size_push] at h2
+    exact ⟨this.1, by omega⟩
+  cases acc with
+  | nilIface => exact absurd rfl hacc
+  | typedNil =>
+    have hun : append h .typedNil args = appendLoop h none none [] args := by simp [append]
+    rw [hun]; exact loop_wf args h none none [] hwf hnone hargs
+  | foreignNil =>
+    have hun : append h .foreignNil args = appendLoop h none none [] args := by simp [append, isNil]
+    rw [hun]; exact loop_wf args h none none [] hwf hnone hargs
+  | plain u m => exact wrapper _ (by simp [isNil]) (by simp)
+  | fwrap u m inner => exact wrapper _ (by simp [isNil]) (by simp)
+  | ref id =>
+    by_cases he : isEmpty h id = true
+    · have hun : append h (.ref id) args = appendLoop h none none [] args := by simp [append, he]
+      rw [hun]; exact loop_wf args h none none [] hwf hnone hargs
+    · have hun : append h (.ref id) args = appendLoop h (some id) (some (tailOf h (fuelOf h) id)) [] args := by
+        simp [append, he]
+      rw [hun]
+      exact loop_wf args h (some id) (some (tailOf h (fuelOf h) id)) [] hwf
+        (fun e he' => by cases he'; exact tail_lt hwf (hids id (by simp))) hargs
+
+/-- `Append` keeps the heap invariant whatever the aliasing between accumulator and arguments -/
+theorem append_wf_any : ∀ (args : List Val) (acc : Val) (h : Heap), WF h →
+    (∀ id, Val.ref id ∈ acc :: args → id < h.size) →
+    WF (append h acc args).1 ∧ h.size ≤ (append h acc args).1.size := by
+  intro args
+  induction args with
+  | nil =>
+    intro acc h hwf hids
+    by_cases hacc : acc = .nilIface
+    · subst hacc
+      have hun : append h .nilIface [] = (h, none, []) := by simp [append]
+      rw [hun]; exact ⟨hwf, Nat.le_refl _⟩
+    · exact append_wf_core h acc [] hacc hwf hids
+  | cons a as ih =>
+    intro acc h hwf hids
+    by_cases hacc : acc = .nilIface
+    · subst hacc
+      have hun : append h .nilIface (a :: as) = append h a as := by simp [append]
+      rw [hun]; exact ih a h hwf (fun id hid => hids id (List.mem_cons_of_mem _ hid))
+    · exact append_wf_core h acc (a :: as) hacc hwf hids
+
+/-- the heaps the exported API can build (without `CloneWithPrefixMessage`): every `*Error` handed to a call exists -/
+inductive Reachable : Heap → Prop
+  | empty : Reachable #[]
+  | new (h : Heap) (m : String) : Reachable h → Reachable (new h m).1
+  | newWithCause (h : Heap) (m : String) (c : Val) : Reachable h → Reachable (newWithCause h m c).1
+  | newEmpty (h : Heap) : Reachable h → Reachable (newEmpty h).1
+  | wrap (h : Heap) (v : Val) : Reachable h → Reachable (wrap h v).1
+  | wrapTyped (h : Heap) (v : Val) : Reachable h → Reachable (wrapTyped h v).1
+  | append (h : Heap) (acc : Val) (args : List Val) : Reachable h →
+      (∀ id, Val.ref id ∈ acc :: args → id < h.size) → Reachable (append h acc args).1
+
+theorem reachable_wf_aux {h : Heap} (r : Reachable h) : WF h := by
+  induction r with
+  | empty => intro i j hij; simp [nextOf] at hij
+  | new h m _ ih => exact push_wf h _ ih rfl
+  | newWithCause h m c _ ih => exact push_wf h _ ih rfl
+  | newEmpty h _ ih => exact push_wf h _ ih rfl
+  | wrap h v _ ih => exact wrap_wf h v ih
+  | wrapTyped h v _ ih => exact wrapTyped_wf h v ih
+  | append h acc args _ hids ih => exact (append_wf_any args acc h ih hids).1
+
 end Errs
